@@ -61,8 +61,12 @@ def run(only=None):
         saved[f] = open(f).read()
     try:
         def fresh():
-            subprocess.run(['rsync', '-a', '--delete', '--exclude', 'target', '/repo/', copy + '/'], check=True)
+            # a clone of /repo's HEAD: independent of whatever is being tried in /repo's working tree meanwhile
+            if not os.path.isdir(os.path.join(copy, '.git')):
+                shutil.rmtree(copy, ignore_errors=True)
+                subprocess.run(['git', 'clone', '-q', '--no-hardlinks', '/repo', copy], check=True)
             subprocess.run(['git', 'checkout', '-q', '--', '.'], cwd=copy)
+            subprocess.run(['git', 'clean', '-fdq', '-e', 'target'], cwd=copy)
         seeds = sorted(glob.glob(os.path.join(VERIF, 'seeded', '*', 'meta.json')))
         props = sorted(set(json.load(open(m))['property'] for m in seeds if json.load(open(m)).get('property')))
         if only:
